@@ -171,12 +171,17 @@ class Recorder:
         """Run backend primitive `fn()`; `log_res(result)` -> result fields of the event."""
         if name in self.quiet:
             return fn()
+        # watchdogs fire once; the clean-up calls of the unwinding library then get 50 more calls
         if self.n >= self.max_calls:
-            raise StillWaiting(f"more than {self.max_calls} system calls in one operation")
+            limit, self.max_calls = self.max_calls, self.max_calls + 50
+            self.wall_deadline = None
+            raise StillWaiting(f"more than {limit} system calls in one operation")
         if self.wall_deadline is not None:
             import time
 
             if time.monotonic() > self.wall_deadline:
+                self.wall_deadline = None
+                self.max_calls = min(self.max_calls, self.n + 50)
                 raise StillWaiting("still issuing system calls long after every timeout has elapsed (wall clock)")
         self.n += 1
         f = self.fault if self.fault and self.fault["k"] == self.n else None
@@ -369,9 +374,9 @@ class VirtualTty:
 
     def _advance(self, to: int):
         if self.time_limit is not None and to > self.time_limit:
-            self.now = self.time_limit
+            self.now, self.time_limit = self.time_limit, None  # fires once; bounded by MAX_CALLS afterwards
             raise StillWaiting(f"still waiting at virtual tick {to}: every timeout given elapsed long ago "
-                               f"(watchdog at {self.time_limit} ticks)")
+                               f"(watchdog at {self.now} ticks)")
         self.now = to
 
     def _deliver(self):
